@@ -16,7 +16,9 @@ Fault enumeration: a delegating thermodynamics wrapper (public setThermodynamics
                    wrapped object), so the library's own 'use previous values' branch runs  (multicomponent)
   binary_unstable  binary interfacial composition -> documented unstable sentinel (-1)
   df_none          driving force -> (None, None), the documented failure value of the thermodynamics layer
-Schedules: single fault at call k for every k <= K (exhaustive on one short configuration per system), bursts,
+Schedules: single fault at call k for every k <= K (exhaustive on one short configuration per system), a fault on the
+growth evaluation that follows the 1st/2nd/3rd/every change of the size-class grid (small grids so that extension and
+re-meshing happen early), bursts,
 periodic. After the last fault the run must finish and satisfy everything above. Runs carry a logical step cap;
 a capped run is checked for everything except c03.end_time.
 """
@@ -33,7 +35,7 @@ RULE = ('(a) fault-free: random configurations incl. compositions/temperatures o
 REQUIRED_MONITORS = ['c03.end_time', 'c03.time_increasing', 'c03.aligned', 'c03.finite', 'c03.fraction_bounds', 'c03.psd_step']
 REACH = ['precipitation/KWNEuler.py:PrecipitateModel._singleGrowthMulti', 'precipitation/KWNEuler.py:PrecipitateModel._createLookupBinary',
          'precipitation/PrecipitationParameters.py:PrecipitationData.appendToArrays', 'precipitation/KWNEuler.py:PrecipitateModel.getDt']
-MIN_NONTRIVIAL = {'quick': 60, 'thorough': 500}
+MIN_NONTRIVIAL = {'quick': 28, 'thorough': 500}
 CASE_TIMEOUT = 900
 CASE_TIMEOUT_THOROUGH = 1800
 MAX_INCONCLUSIVE_FRACTION = 0.03
@@ -48,8 +50,8 @@ MANIFEST = {
     'technique': 'fault injection at the thermodynamics seam + per-step well-formedness invariants',
 }
 
-N_FREE = {'quick': 36, 'thorough': 240}
-K_SINGLE = {'quick': 40, 'thorough': 200}
+N_FREE = {'quick': 24, 'thorough': 240}
+K_SINGLE = {'quick': 12, 'thorough': 200}
 FAULT_KINDS = {'nialcr': ['growth_none', 'curvature_fail', 'df_none'], 'alzr': ['binary_unstable', 'df_none'],
                'almgsi': ['growth_none', 'curvature_fail']}
 FAULT_METHOD = {'growth_none': 'getGrowthAndInterfacialComposition', 'binary_unstable': 'getInterfacialComposition',
@@ -82,7 +84,7 @@ def plan(tier, seed):
         rng = core.case_rng(seed, PROPERTY, i)
         cfg = precip_gen.gen_config(rng, tier=tier, allow_noniso=(i % 4 == 0), out_of_window=(i % 5 == 1),
                                     grid_class=('out_of_range' if i % 6 == 2 else None), allow_beta2=True)
-        cfg['max_steps'] = min(cfg['max_steps'], 1500 if tier == 'quick' else 4000)
+        cfg['max_steps'] = min(cfg['max_steps'], 800 if tier == 'quick' else 4000)
         cases.append({'kind': 'free', 'cfg': cfg, 'weight': precip_gen.cfg_weight(cfg)})
     K = K_SINGLE[tier]
     for system in ('nialcr', 'alzr', 'almgsi'):
@@ -93,11 +95,14 @@ def plan(tier, seed):
         for kind in kinds:
             scheds = [{'type': 'single', 'k': k} for k in range(1, (K if system != 'almgsi' else K // 2) + 1)]
             rng = core.case_rng(seed, PROPERTY, 10000 + len(cases))
-            for j in range(6 if tier == 'quick' else 40):
+            for j in range(3 if tier == 'quick' else 40):
                 start = int(rng.integers(1, 3 * K))
                 scheds.append({'type': 'burst', 'start': start, 'len': int(rng.integers(2, 8))})
                 scheds.append({'type': 'periodic', 'period': int(rng.integers(2, 12)), 'phase': int(rng.integers(0, 5))})
-            B = 8
+            if kind in ('growth_none', 'curvature_fail'):
+                # fault on the growth evaluation that follows a change of the size-class grid (extension / re-mesh)
+                scheds += [{'type': 'after_grid_change', 'which': w, 'small_grid': True} for w in (1, 2, 3, 'all')]
+            B = 6 if tier == 'quick' else 8
             for b in range(0, len(scheds), B):
                 cases.append({'kind': 'fault', 'system': system, 'fault': kind, 'schedules': scheds[b:b + B],
                               'weight': 3e3 * B * {'alzr': 1, 'nialcr': 2, 'almgsi': 5}[system]})
@@ -105,6 +110,8 @@ def plan(tier, seed):
 
 
 def _fires(s, n):
+    if s['type'] == 'after_grid_change':
+        return False
     if s['type'] == 'single':
         return n == s['k']
     if s['type'] == 'burst':
@@ -120,8 +127,24 @@ def _make_fault(kind, sched, state, run):
             return 'setup'
         return 'iterator' if run.in_iterator else 'postprocess'
 
+    def grid_changed(a, k):
+        R = a[3] if len(a) > 3 else k.get('R')
+        ph = k.get('precPhase')
+        L = int(np.size(R))
+        prev = state.setdefault('lastR', {}).get(ph)
+        state['lastR'][ph] = L
+        if prev is not None and L > 1 and prev > 1 and L != prev:
+            state['grid_events'] = state.get('grid_events', 0) + 1
+            return sched['which'] == 'all' and state['grid_events'] <= 6 or sched['which'] == state['grid_events']
+        return False
+
     def fault(name, n, a, k):
-        if name != method or not _fires(sched, n):
+        if name != method:
+            return None
+        if sched['type'] == 'after_grid_change':
+            if kind != 'growth_none' or not grid_changed(a, k):
+                return None
+        elif not _fires(sched, n):
             return None
         state['fired'] += 1
         if kind == 'growth_none':
@@ -155,6 +178,8 @@ def run_case(case, R):
     nfired = 0
     for s in case['schedules']:
         cfg = base_cfg(case['system'])
+        if s.get('small_grid'):
+            cfg['pbm'] = {'cMin': 1e-10, 'cMax': 2.5e-9, 'bins': 40, 'minBins': 30, 'maxBins': 60, 'adaptive': True}
         state = {'fired': 0}
         kind = case['fault']
         if kind == 'curvature_fail':
@@ -167,14 +192,34 @@ def run_case(case, R):
             run.fault_info = {'kind': kind, 'hit': set()}
             _run = run
 
+            armed = {'on': False, 'lastR': {}, 'events': 0}
+
+            def before(name, a, k, _s=s):
+                # arm the failpoint when a growth evaluation follows a change of the size-class grid
+                if _s['type'] != 'after_grid_change' or name != 'getGrowthAndInterfacialComposition':
+                    return
+                L = int(np.size(a[3])) if len(a) > 3 else 0
+                ph = k.get('precPhase')
+                prev = armed['lastR'].get(ph)
+                armed['lastR'][ph] = L
+                if prev is not None and L > 1 and prev > 1 and L != prev:
+                    armed['events'] += 1
+                    if (_s['which'] == 'all' and armed['events'] <= 6) or _s['which'] == armed['events']:
+                        armed['on'] = True
+
             def failing(*a, _o=orig, _s=s, **k):
                 cnt['n'] += 1
-                if _fires(_s, cnt['n']):
+                hit = _fires(_s, cnt['n'])
+                if armed['on']:
+                    armed['on'] = False
+                    hit = True
+                if hit:
                     state['fired'] += 1
                     _run.fault_info['hit'].add('setup' if _run.steps == 0 and _run.ctx is None and not _run.in_iterator else ('iterator' if _run.in_iterator else 'postprocess'))
                     return None
                 return _o(*a, **k)
             inner._getCompositionSetsEq = failing
+            run.extra_before = before
             run.execute()
         else:
             run = TrajectoryRun(cfg, R, [C03Monitor()], max_steps=cfg['max_steps'])
